@@ -1093,7 +1093,7 @@ func (x *tr) function(fd *ast.FuncDecl) string {
 	var sb strings.Builder
 	var src strings.Builder
 	_ = printer.Fprint(&src, fset, fd)
-	fmt.Fprintf(&sb, "/- %s:\n%s\n-/\n", fset.Position(fd.Pos()).Filename[len(repoDir)+1:], strings.ReplaceAll(src.String(), "-/", "- /"))
+	fmt.Fprintf(&sb, "/- %s:\n%s\n-/\n", fset.Position(fd.Pos()).Filename[len(repoDir)+1:], strings.ReplaceAll(strings.ReplaceAll(src.String(), "-/", "- /"), "/-", "/ -"))
 	fmt.Fprintf(&sb, "def %s", ident(sg.name))
 	for _, p := range sg.params {
 		if _, dup := en.vars[p.name]; dup || p.name == "_" {
